@@ -302,7 +302,7 @@ DOC_EXC = (ValueError, KeyError, TypeError)
 IDENT = lambda ref: None  # noqa: E731   (operation documented not to change the model's content)
 
 
-def _try(S, name, f, exc=DOC_EXC, ref=None, **args):
+def _try(S, name, f, exc=DOC_EXC, ref=None, atomic=True, **args):
     """run one operation; any exception it raises ends the operation (and, in a C03 block, the block).
     The properties checked here constrain the *state afterwards*, whatever the exception type.
     ref: closure applying the documented effect to the reference model (C02); None = no reference semantics."""
@@ -324,8 +324,8 @@ def _try(S, name, f, exc=DOC_EXC, ref=None, **args):
     e = err
     if True:
         R = getattr(S, "ref", None)
-        if R is not None and not isinstance(e, exc):
-            R.valid = False
+        if R is not None and (not isinstance(e, exc) or not atomic):
+            R.valid = False     # atomic=False: a multi-key call whose state after a failure the documentation leaves open
         S.log.append((name, args, type(e).__name__))
         if not isinstance(e, exc):
             S.undocumented = getattr(S, "undocumented", []) + [(name, type(e).__name__)]
@@ -714,10 +714,10 @@ def op_rename_genes(E, m, S):
 def op_medium(E, m, S):
     what = E.pick(S.tag("medium"), ["{}", "{EX_A:x}"])
     if what == "{}":
-        _try(S, "medium={}", lambda: setattr(m, "medium", {}))
+        _try(S, "medium={}", lambda: setattr(m, "medium", {}), atomic=False)
     elif "EX_A" in m.reactions:
         x = E.real(S.tag("x"), 0, 20)
-        _try(S, "medium={EX_A:x}", lambda: setattr(m, "medium", {"EX_A": x}))
+        _try(S, "medium={EX_A:x}", lambda: setattr(m, "medium", {"EX_A": x}), atomic=False)
 
 
 def op_rename_reaction(E, m, S):
